@@ -49,6 +49,9 @@ type verifC43Result struct {
 	overshootAt int // step index or -1
 	overlapped  bool
 	running     int
+	// overshoots explained by overlapped admission windows (known finding), counted; the schedule continues
+	knownEvents  int
+	firstKnownAt int
 }
 
 // verifC43Exec runs the schedule. atomicAdmission: a task's CanProcess and StartProcessing are adjacent.
@@ -61,7 +64,7 @@ func verifC43Exec(max int32, rounds []int, schedule []int, atomicAdmission bool)
 	for i, r := range rounds {
 		tasks[i] = &verifC43Task{roundsLeft: r}
 	}
-	res := &verifC43Result{overshootAt: -1}
+	res := &verifC43Result{overshootAt: -1, firstKnownAt: -1}
 	start := func(id int) {
 		tk := tasks[id]
 		th.StartProcessing()
@@ -112,13 +115,26 @@ func verifC43Exec(max int32, rounds []int, schedule []int, atomicAdmission bool)
 			res.reachedMax = true
 		}
 		if res.running > int(max) {
-			res.overshootAt = si
+			// Overshoot. With a correct throttler (counter == number of running tasks) every interleaving keeps
+			//   running <= max + dirtyRunning
+			// where dirtyRunning = running tasks whose check-then-start window contained another task's
+			// StartProcessing (induction over clean start / dirty start / end). An overshoot within that bound
+			// is the known finding (counted, the schedule goes on); beyond it the throttler itself is wrong.
+			dirtyRunning := 0
 			for _, o := range tasks {
 				if o.state == verifC43Running && o.dirty {
-					res.overlapped = true
+					dirtyRunning++
 				}
 			}
-			return res, nil
+			if res.running > int(max)+dirtyRunning {
+				res.overshootAt = si
+				res.overlapped = false
+				return res, nil
+			}
+			res.knownEvents++
+			if res.firstKnownAt < 0 {
+				res.firstKnownAt = si
+			}
 		}
 	}
 	return res, nil
@@ -179,12 +195,16 @@ func TestVerifC43_FreeInterleaving(t *testing.T) {
 			}
 			verifC43Classify(c, "free", max, rounds, schedule, res)
 			if res.overshootAt >= 0 {
-				if res.overlapped {
-					c.Violation(verifC43KnownKey, "max=%d: %d tasks running after step %d; trace: %s", max, res.running, res.overshootAt, strings.Join(res.trace, " "))
+				// more tasks running than max + (running tasks admitted through an overlapped window): not explained
+				// by the check-then-act window, the throttler's counter is wrong
+				c.Violation("C43:free:overshoot", "max=%d: %d tasks running after step %d, more than max plus the running tasks with an overlapped admission window; trace: %s", max, res.running, res.overshootAt, strings.Join(res.trace, " "))
+			}
+			if res.knownEvents > 0 {
+				if !kit.IsKnown(verifC43KnownKey) {
+					c.Violation(verifC43KnownKey, "max=%d: overshoot through overlapping admission windows at step %d; trace: %s", max, res.firstKnownAt, strings.Join(res.trace, " "))
 				}
-				// no running task had its admission window overlapped by another admission: every admission
-				// was equivalent to an atomic one, so the bound must hold
-				c.Violation("C43:free:overshoot", "max=%d: %d tasks running after step %d without overlapping admission windows; trace: %s", max, res.running, res.overshootAt, strings.Join(res.trace, " "))
+				c.Excluded(verifC43KnownKey)
+				c.Class("known-overshoot-then-continued")
 			}
 		})
 }
@@ -206,10 +226,18 @@ func TestVerifC43_Regress(t *testing.T) {
 		t.Fatalf("fixture: %v", err)
 	}
 	if res.overshootAt >= 0 {
-		if !res.overlapped {
-			kit.FailPlain(t, "C43", "C43:free:overshoot", "max=1 trace %s", strings.Join(res.trace, " "))
-		}
+		kit.FailPlain(t, "C43", "C43:free:overshoot", "max=1 trace %s", strings.Join(res.trace, " "))
+	}
+	if res.knownEvents > 0 {
 		kit.FailPlain(t, "C43", verifC43KnownKey, "max=1: 2 tasks running; trace: %s", strings.Join(res.trace, " "))
+	}
+	// after the overlapped pair has ended, admissions are bounded again (the counter must have followed both ends)
+	res, err = verifC43Exec(1, []int{1, 1, 2, 2}, []int{0, 1, 0, 1, 0, 1, 2, 2, 3, 3, 2, 3, 3, 2, 2, 3, 3}, false)
+	if err != nil {
+		t.Fatalf("fixture: %v", err)
+	}
+	if res.overshootAt >= 0 {
+		kit.FailPlain(t, "C43", "C43:free:overshoot", "max=1 trace %s", strings.Join(res.trace, " "))
 	}
 }
 
